@@ -78,45 +78,38 @@ Print Assumptions C09_literals_strong.
 (* [tie-eval] [tie-spec] *)
 Theorem C09_accepted_value_partial : forall cenv env e t v v', env_agree cenv env ->
   c_eval cenv e = Some (t, v, true) -> py_eval env e = Ok v' -> v' = v.
-Proof.
-  intros cenv env e t v v' EA H P. destruct (agree_exact cenv env e t v EA H) as [Q|Q]; rewrite Q in P;
-    [now inversion P|discriminate].
-Qed.
+Proof. exact accepted_value. Qed.
 Print Assumptions C09_accepted_value_partial.
 
 (* The full statement (without the exact flag) is false: known finding unsigned_arith *)
 Definition C09_full_statement : Prop :=
   forall e t v f v', c_eval [] e = Some (t, v, f) -> py_eval [] e = Ok v' -> v' = v.
 
-Definition lit (s : string) : expr := Const (map (fun a => N_of_ascii a) (list_ascii_of_string s)).
 
 (* 0u - 1 : C 4294967295 (unsigned int), cffi -1 *)
 Theorem C09_refuted_0u_minus_1 :
   c_eval [] (Binary "-" (lit "0u") (lit "1")) = Some (T RInt false, 4294967295, false) /\
   py_eval [] (Binary "-" (lit "0u") (lit "1")) = Ok (-1).
-Proof. split; vm_compute; reflexivity. Qed.
+Proof. exact refuted_0u_minus_1. Qed.
 Print Assumptions C09_refuted_0u_minus_1.
 
 (* 0xFFFFFFFF + 1 : the literal is unsigned int; C 0, cffi 2^32 *)
 Theorem C09_refuted_hex_plus_1 :
   c_eval [] (Binary "+" (lit "0xFFFFFFFF") (lit "1")) = Some (T RInt false, 0, false) /\
   py_eval [] (Binary "+" (lit "0xFFFFFFFF") (lit "1")) = Ok 4294967296.
-Proof. split; vm_compute; reflexivity. Qed.
+Proof. exact refuted_hex_plus_1. Qed.
 Print Assumptions C09_refuted_hex_plus_1.
 
 (* -0x80000000 : C 2147483648 (unsigned int), cffi -2147483648 *)
 Theorem C09_refuted_neg_hex :
   c_eval [] (Unary "-" (lit "0x80000000")) = Some (T RInt false, 2147483648, false) /\
   py_eval [] (Unary "-" (lit "0x80000000")) = Ok (-2147483648).
-Proof. split; vm_compute; reflexivity. Qed.
+Proof. exact refuted_neg_hex. Qed.
 Print Assumptions C09_refuted_neg_hex.
 
 (* [tie-eval] [tie-spec] *)
 Theorem C09_refuted : ~ C09_full_statement.
-Proof.
-  intros H. destruct C09_refuted_0u_minus_1 as [A B].
-  specialize (H _ _ _ _ _ A B). discriminate H.
-Qed.
+Proof. exact full_statement_refuted. Qed.
 Print Assumptions C09_refuted.
 
 (* ---- non-vacuity: expressions of the exact class with negative operands, all operators, all radixes ---- *)
